@@ -20,10 +20,13 @@ RULE = (
     "(exact, 0, 1, +1, -1, huge, non-minimal, truncated varint) x payload (valid, empty, truncated, trailing bytes, "
     "junk), reserved/duplicate/contradictory SETTINGS, duplicate critical streams, frames on the wrong stream or in "
     "the wrong state, malformed instructions on both QPACK streams, header blocks with invalid / oversized / "
-    "non-UTF-8 fields or dangling dynamic references, push streams, WebTransport stream headers, unknown stream "
+    "non-UTF-8 fields, hand-encoded field sections (literal names or static name references) with values beyond "
+    "any encoder limit such as > 4300-digit content-length / :status, dangling dynamic references, push streams, WebTransport stream headers, unknown stream "
     "types, H3 datagrams with truncated quarter stream ids, stream resets; all stream bytes are split and "
     "interleaved by the chooser and fed as StreamDataReceived / DatagramFrameReceived / StreamReset events to "
-    "handle_event() of a real H3Connection/H0Connection on a real QuicConnection with a finished handshake. The "
+    "handle_event() of a real H3Connection/H0Connection on a real QuicConnection with a finished handshake "
+    "(max_datagram_size 1200..1472; a client target in 40 % of the runs with a complete but UNCONFIRMED handshake, "
+    "the server's HANDSHAKE_DONE being lost, so that its close is a coalesced Handshake + 1-RTT datagram). The "
     "same script is executed without and with a QuicLogger. Oracle: handle_event returns; afterwards "
     "datagrams_to_send / get_timer / handle_timer / next_event return until termination; the qlog serialises. "
     "Non-trivial = at least one hostile item was fed; distinct = hash of the delivered event sequence"
@@ -84,11 +87,20 @@ def prefix_int(value, bits, flags=0):
     return bytes(out)
 
 
-def raw_block(fields, ric=0, base=0):
-    """header block of literal field lines with literal names, no Huffman"""
+STATIC_NAME_INDEX = {b":authority": 0, b":path": 1, b"age": 2, b"content-length": 4, b"cookie": 5, b"date": 6,
+                     b"etag": 7, b":method": 15, b":scheme": 22, b":status": 24}
+
+
+def raw_block(fields, ric=0, base=0, static_refs=False):
+    """hand-encoded header block, no Huffman, no size limit: literal field lines with literal
+    names, or (static_refs) with a name reference into the static table where one exists"""
     out = bytearray(prefix_int(ric, 8) + prefix_int(base, 7))
     for name, value in fields:
-        out += prefix_int(len(name), 3, 0x20) + name + prefix_int(len(value), 7, 0) + value
+        if static_refs and name in STATIC_NAME_INDEX:
+            out += prefix_int(STATIC_NAME_INDEX[name], 4, 0x50)
+        else:
+            out += prefix_int(len(name), 3, 0x20) + name
+        out += prefix_int(len(value), 7, 0) + value
     return bytes(out)
 
 
@@ -192,12 +204,14 @@ class Hostile:
         return self.new_bidi()
 
     # ---- header lists and blocks
-    def fields(self, valid_only=False, push=False):
+    def fields(self, valid_only=False, push=False, force=None):
         """(fields, tag) ; tag 'valid' or the kind of defect"""
         hf = self.hf
         request = push or not self.tc
         base = gen_request_headers(hf, full=push) if request else gen_response_headers(hf)
-        k = 0 if valid_only else hf.weighted([4, 1, 1, 1, 2.5, 1, 1, 1, 2, 1, 0.5, 1, 0.5, 0.7, 1])
+        k = 0 if valid_only else hf.weighted([4, 1, 1, 1, 2.5, 1, 1, 1, 2, 1, 0.5, 1, 0.5, 0.7, 1, 2])
+        if force is not None:
+            k = force
         if k == 0:
             return base, "valid"
         if k == 1:
@@ -209,7 +223,7 @@ class Hostile:
             bad = [b"a\x00b", b"a\nb", b"a\rb", b" lead", b"trail ", b"\ttab", b" "][hf.choose(7)]
             return base + [(b"x-a", bad)], "bad-value"
         if k == 4:  # oversized INVALID name: ends up in the reason phrase of the close
-            n = [200, 1100, 1300, 2000, 5000, 20000, 70000][hf.choose(7)]
+            n = [1000, 1150, 1300, 1500, 2000, 3000, 200, 5000, 20000, 70000][hf.choose(10)]
             ch_ = [b"A", b"\xff", b" ", b"\x00"][hf.choose(4)]
             return base + [(ch_ * n, b"v")], "oversized-bad-name"
         if k == 5:  # oversized valid name / value
@@ -239,12 +253,23 @@ class Hostile:
             return [(b":scheme", b"https"), (b":method", b"GET"), (b":authority", b""), (b":path", b"/")], "empty-authority"
         if k == 13:
             return base + [(b"x-a", b"v")] * (50 + hf.choose(400)), "many-fields"
+        if k == 15:  # numeric fields with more digits than int() accepts by default (4300)
+            n = [4301, 5000, 20000, 4300, 4299, 100000][hf.choose(6)]
+            digits = [b"1", b"9", b"0"][hf.choose(3)] * n
+            which = hf.weighted([4, 2, 1])
+            if which == 0:
+                return base + [(b"content-length", digits)], "huge-numeric"
+            if which == 1:
+                if base and base[0][0] == b":status":
+                    return [(b":status", digits)] + base[1:], "huge-numeric"
+                return base + [(b"content-length", b"+" + digits)], "huge-numeric"
+            return base + [(b"age", digits), (b"x-num", digits)], "huge-numeric"
         return [(b"x-a", b"v")] + base, "pseudo-after-regular"
 
-    def block(self, sid, valid_only=False, push=False):
+    def block(self, sid, valid_only=False, push=False, force=None):
         """an encoded field section for stream sid"""
         hf = self.hf
-        fields, tag = self.fields(valid_only, push)
+        fields, tag = self.fields(valid_only, push, force)
         self.count("fields_" + tag)
         big = sum(len(k) + len(v) + 8 for k, v in fields) > 3000 or len(fields) > 60
         how = 1 if big else (0 if valid_only else hf.weighted([6, 3, 1, 1, 1]))
@@ -261,7 +286,7 @@ class Hostile:
                     self.count("dangling_dynamic_reference")
             return blk
         if how == 1:
-            return raw_block(fields)
+            return raw_block(fields, static_refs=hf.chance(0.5))
         if how == 2:  # reference to dynamic entries that may never exist
             ric = [1, 2, 5, 100, 254, 255, 256, 10000][hf.choose(8)]
             self.count("block_bad_ric")
@@ -437,8 +462,17 @@ class Hostile:
     def item(self):
         g = self.g
         self.hostile_items += 1
-        k = g.weighted([6, 4, 3, 2, 2, 2, 1, 1, 2, 2])
-        if k == 0:  # message stream: request (server) / response (client)
+        k = g.weighted([6, 4, 3, 2, 2, 2, 1, 1, 2, 2, 2.5])
+        if k == 10:  # a well-formed HEADERS frame whose field section is the hostile part
+            sid = self.message_stream(fresh=g.chance(0.7))
+            self.kind.setdefault(sid, "message")
+            if sid not in self.data and g.chance(0.4):
+                self.put(sid, self.frame_bytes(F_HEADERS, self.block(sid, valid_only=True)), "message")
+            force = [4, 15, 4, 15, 1, 8][g.choose(6)]
+            self.count("item_hostile_field_section")
+            self.count("frame_HEADERS")
+            self.put(sid, self.frame_bytes(F_HEADERS, self.block(sid, force=force)), "message")
+        elif k == 0:  # message stream: request (server) / response (client)
             sid = self.message_stream()
             self.kind.setdefault(sid, "message")
             if sid not in self.data and g.chance(0.6):
@@ -586,8 +620,10 @@ class Target:
     pass
 
 
-def make_target(seed, mode, is_client, wt, with_logger):
-    """real QuicConnection pair, handshake done; returns the target side"""
+def make_target(seed, mode, is_client, wt, with_logger, unconfirmed=False, mds=1200):
+    """real QuicConnection pair, handshake done; returns the target side.
+    unconfirmed (client target): the server's datagrams carrying HANDSHAKE_DONE never reach the
+    client, whose handshake is then complete but not confirmed (it still holds Handshake keys)"""
     from aioquic.quic.configuration import QuicConfiguration
     from aioquic.quic.connection import QuicConnection
     from aioquic.quic.logger import QuicLogger
@@ -595,10 +631,12 @@ def make_target(seed, mode, is_client, wt, with_logger):
     bootstrap.DET.reseed(seed)
     alpn = ["hq-interop"] if mode == "h0" else ["h3"]
     dg = 65536 if (wt or mode == "h0") else None
-    cconf = QuicConfiguration(is_client=True, alpn_protocols=alpn, max_datagram_frame_size=dg)
+    cconf = QuicConfiguration(is_client=True, alpn_protocols=alpn, max_datagram_frame_size=dg,
+                              max_datagram_size=mds)
     cconf.server_name = "localhost"
     cconf.cafile = fixtures.ca_path()
-    sconf = QuicConfiguration(is_client=False, alpn_protocols=alpn, max_datagram_frame_size=dg)
+    sconf = QuicConfiguration(is_client=False, alpn_protocols=alpn, max_datagram_frame_size=dg,
+                              max_datagram_size=mds)
     cert, chain, key = fixtures.cert_chain("server_ed25519")
     sconf.certificate = cert
     sconf.certificate_chain = chain
@@ -612,12 +650,14 @@ def make_target(seed, mode, is_client, wt, with_logger):
                             original_destination_connection_id=client.original_destination_connection_id)
     now = 0.0
     client.connect(SERVER_ADDR, now=now)
-    for _ in range(4):
+    for rnd in range(4):
         now += 0.001
         for d, _a in client.datagrams_to_send(now=now):
             server.receive_datagram(d, CLIENT_ADDR, now=now)
         now += 0.001
         for d, _a in server.datagrams_to_send(now=now):
+            if unconfirmed and rnd >= 1:
+                continue  # lost: everything the server sends after its first flight
             client.receive_datagram(d, SERVER_ADDR, now=now)
     t = Target()
     t.quic, t.peer = (client, server) if is_client else (server, client)
@@ -631,6 +671,8 @@ def make_target(seed, mode, is_client, wt, with_logger):
                 done = True
     if not done:
         raise RuntimeError("handshake did not complete in the harness")
+    if unconfirmed and (not is_client or t.quic._handshake_confirmed):
+        raise RuntimeError("the harness failed to keep the client's handshake unconfirmed")
     t.now = now
     t.qlog = qlog
     t.is_client = is_client
@@ -674,10 +716,12 @@ def execute(seed, mode, is_client, wt, n_requests, schedule, with_logger, cfg):
     """one execution of the script against a fresh target; raises Violation"""
     from aioquic.quic import events as qev
 
-    t = make_target(seed, mode, is_client, wt, with_logger)
+    t = make_target(seed, mode, is_client, wt, with_logger, cfg["unconfirmed"], cfg["mds"])
     quic = t.quic
     rep = Report()
-    tag = "logger=%s" % ("on" if with_logger else "off")
+    tag = "logger=%s%s, max_datagram_size=%d" % (
+        "on" if with_logger else "off",
+        ", client handshake complete but not confirmed" if cfg["unconfirmed"] else "", cfg["mds"])
     # the close the HTTP layer asks for is observed at the QuicConnection API
     real_close = quic.close
 
@@ -848,7 +892,9 @@ def run_one(seed, tier="quick", variant=None, replay=None):
         is_client = cfgs.chance(0.35)
     wt = cfgs.chance(0.5) if mode == "h3" else False
     n_requests = (1 + cfgs.choose(3)) if is_client else 0
-    cfg = {"transmit_each": cfgs.chance(0.3)}
+    cfg = {"transmit_each": cfgs.chance(0.3),
+           "unconfirmed": is_client and cfgs.chance(0.4),
+           "mds": [1200, 1280, 1350, 1472, 1252][cfgs.choose(5)]}
     hp = Hostile(ch, mode, is_client, wt, [4 * i for i in range(n_requests)])
     if mode == "h0":
         hp.h0_items()
@@ -876,7 +922,14 @@ def run_one(seed, tier="quick", variant=None, replay=None):
             dig.update(repr((sorted(rep.events.items()), rep.closed, rep.terminated, rep.peer_code)).encode())
             key = "close_0x%x" % rep.closed[0] if rep.closed else "close_none"
             probes[key] = probes.get(key, 0) + 1
-            states.add((variant, wt, key))
+            states.add((variant, wt, key, cfg["unconfirmed"]))
+            if cfg["unconfirmed"]:
+                probes["target_handshake_unconfirmed"] = probes.get("target_handshake_unconfirmed", 0) + 1
+                if rep.closed:
+                    probes["close_while_unconfirmed"] = probes.get("close_while_unconfirmed", 0) + 1
+                    if len(rep.closed[1]) > 1000:
+                        probes["long_reason_close_while_unconfirmed"] = probes.get(
+                            "long_reason_close_while_unconfirmed", 0) + 1
             for n, c in rep.events.items():
                 probes["event_" + n] = probes.get("event_" + n, 0) + c
             if rep.terminated:
@@ -901,6 +954,7 @@ def run_one(seed, tier="quick", variant=None, replay=None):
     out.signature = stable_hash(dig.hexdigest())
     out.sample = {
         "seed": seed, "variant": variant, "role": "client" if is_client else "server", "webtransport": wt,
+        "handshake_unconfirmed": cfg["unconfirmed"], "max_datagram_size": cfg["mds"],
         "streams": {str(s): {"kind": hp.kind.get(s), "bytes": _hex(hp.data[s])} for s in hp.order[:10]},
         "datagrams": [_hex(d) for d in hp.datagrams[:4]],
         "deliveries": [(d[0], d[1] if d[0] != "d" else "-", len(d[2]) if d[0] == "s" else 0,
